@@ -79,14 +79,20 @@ def bump(d, k, n=1):
 _PROP = None
 
 
+_INIT_ERROR = None
+
+
 def _winit(pid, env):
+    global _PROP, _INIT_ERROR
     os.environ.update(env)
     faulthandler.enable()
-    boot.setup()
-    global _PROP
-    _PROP = load_prop(pid)
-    if hasattr(_PROP, 'warmup'):
-        _PROP.warmup()
+    try:
+        boot.setup()
+        _PROP = load_prop(pid)
+        if hasattr(_PROP, 'warmup'):
+            _PROP.warmup()
+    except Exception as e:      # reported per job as a harness error, never as a crash of the code under test
+        _INIT_ERROR = 'worker initialisation failed: %s: %s\n%s' % (type(e).__name__, e, traceback.format_exc()[-2000:])
 
 
 def safe_run(prop, case):
@@ -101,6 +107,10 @@ def safe_run(prop, case):
 
 def _wrun(job):
     i, kind, payload, tier = job
+    if _INIT_ERROR is not None:
+        out = new_outcome()
+        out['harness'] = _INIT_ERROR
+        return i, kind, None, finish(out)
     faulthandler.dump_traceback_later(getattr(_PROP, 'CASE_TIMEOUT', 300), exit=True)
     try:
         if kind == 'seed':
